@@ -6,14 +6,24 @@ Every statement below is about the GENERATED expressions of `Gen/IndexExprs.lean
 run by tools/translate_index.py) and the configuration model `Model/Pipeline.lean`; editing the source re-states them.
 
 Reading guide
-  §1  shape / documented errors of the prediction set            (full)
-  §2  in-bounds theorems, one per index site                     (full, or `_refuted` + `_partial` where the code is wrong)
-  §3  exception tables: catch/rethrow map, foreign throws, exit() (full except `front_end_errors_documented`)
-  §4  termination of the loops that are bounded by parameters    (full)
+  §1  shape / documented errors of the prediction set
+  §2  in-bounds theorems over a FIXED LIST of index sites (DESIGN C01 item 3 + a few added ones; about 75 generated
+      expressions out of the several hundred index / slice expressions of the library — every other access is covered
+      by the sanitizer sweep only)
+  §3  exception tables: catch/rethrow map, foreign throws, exit()
+  §4  termination of the loops that are bounded by parameters
 
-OPEN FINDINGS on the current tree are the `*_refuted` theorems: each one carries the concrete witness that the sweep
-replays on the real code under ASan (checks/c01.py, WITNESSES).  When a defect is repaired the regenerated expression
-makes the refutation fail to compile; the replacement (full) statement is given in a comment next to it.
+Kinds of statements (marked [S] / [M] / [R] at each theorem)
+  [S] substantive: connects the GENERATED validation bounds to GENERATED index / size expressions (or generated tables to
+      each other); fails to compile when the source drifts — these are the property theorems
+  [M] model sanity: a fact about the hand-written `prediction` / `validated` of Model/Pipeline.lean, true by construction
+      of that function; its only tie to `embed` is the sweep (observation ∈ prediction)
+  [R] restatement: the conclusion is (a rearrangement of) a hypothesis, or a bounded combinator runs within its bound;
+      kept so that the generated constant / expression is pinned (a change of the literal or of the expression's shape
+      still re-states it), not because the proof has content
+
+A finding that is open on the current tree appears as `*_refuted` (with the witness the sweep replays) + `*_partial`
+inside an `OPEN <F-ID>` block, the full theorem waits in a `CLOSED <F-ID>` comment; tools/c01_close_finding.py switches.
 -/
 import TapkeeVerif.Proofs.InBounds
 
@@ -23,6 +33,7 @@ open TapkeeVerif.Pipeline TapkeeVerif.Gen.IndexExprs
 /-! ## §1 prediction set -/
 
 /-- a permitted successful result has exactly N rows and target_dimension columns (PassThru: the D features) -/
+-- [M]
 theorem prediction_shape (c : Config) (r k : Int) (h : (prediction c).ok = some (r, k)) :
     r = c.N ∧ k = (if c.method = .passthru then c.D else c.d) := by
   unfold prediction at h
@@ -30,18 +41,21 @@ theorem prediction_shape (c : Config) (r k : Int) (h : (prediction c).ok = some 
 
 /-- every exception class the model permits is documented in embed.hpp's `@throw` block, or is the empty-input
     error of the base constructor -/
+-- [M]
 theorem prediction_errors_documented (c : Config) (e : Err) (h : e ∈ (prediction c).throws) :
     e.name ∈ documentedThrows ∨ e.name = emptyInputThrows := by
   unfold prediction at h
   split_ifs at h <;> simp_all <;> decide
 
 /-- a configuration that fails validation can only be answered by an exception -/
+-- [M]
 theorem unvalidated_only_throws (c : Config) (h : validated c = false) : (prediction c).ok = none := by
   unfold prediction
   split_ifs <;> simp_all
 
 /-- a validated configuration of a method without eigensolver and without index site outside its container is
     predicted to succeed, with no exception permitted -/
+-- [M]
 theorem validated_plain_method_must_succeed (c : Config) (h : validated c = true) (he : usesEig c.method = false) :
     (prediction c).ok = some (okShape c) ∧ (prediction c).throws = [] := by
   have hN := validated_pos h
@@ -57,11 +71,13 @@ example : (prediction (defaultConfig .le .brute .randomized 17 3)).throws = [.un
 /-! ## §2 in-bounds theorems over the generated index expressions -/
 
 /-- facts every validated configuration carries: `1 ≤ d < N` -/
+-- [S]
 theorem validated_d {c : Config} (h : validated c = true) : 1 ≤ c.d ∧ c.d < c.N := by
   have := validated_base h
   simpa [validateBase] using this
 
 /-- … and `3 ≤ k < N` when the method searches for neighbours -/
+-- [S]
 theorem validated_k {c : Config} (h : validated c = true) (hu : usesNeighbors c.method c = true) :
     3 ≤ c.k ∧ c.k < c.N := by
   have := validated_neighbors h hu
@@ -74,6 +90,7 @@ example : validated (defaultConfig .klle .brute .dense 8 3) = true ∧
 
 /-- `nth_element(begin, begin + k + 1, end)` and the copy loop `[0, k+1)` stay inside the N distance records for the
     clamped k of EVERY round of the k-doubling recursion (any requested k ≥ 0) -/
+-- [S]
 theorem inb_nth_element (N k : Int) (hN : 1 ≤ N) (hk : 0 ≤ k) :
     InCount (brute_nth_pos (clampK N k)) (brute_distances_size N) ∧
     InCount (brute_take_end (clampK N k)) (brute_distances_size N) := by
@@ -82,17 +99,20 @@ theorem inb_nth_element (N k : Int) (hN : 1 ≤ N) (hk : 0 ≤ k) :
 
 /-- brute force and VP-tree return lists of length exactly k whether or not the query is among the k+1 closest
     records (F-KNN-DUP repaired: the surplus entry is dropped) -/
+-- [S]
 theorem neighbor_lists_have_length_k (found : Bool) (k : Int) :
     bruteLen found k = k ∧ vptreeLen found k = k := by
   cases found <;> simp [bruteLen, vptreeLen, brute_take_end, vptree_requested, brute_trims_to_k, vptree_trims_to_k]
 
 /-- every consumer indexes list i with `j < neighbors[0].size()`: in bounds when the lists have a common length -/
+-- [R]
 theorem inb_neighbor_lists (len : Nat → Int) (huni : ∀ i, len i = len 0) (i : Nat) (j : Int)
     (hj0 : 0 ≤ j) (hj : j < consumer_loop_bound (len 0)) : InIdx j (len i) := by
   simp only [InIdx, consumer_loop_bound] at *
   rw [huni i]; omega
 
 /-- … and that hypothesis is necessary: with lists of unequal length the access leaves the shorter one -/
+-- [S]
 theorem inb_neighbor_lists_needs_uniform :
     ¬ (∀ (len : Nat → Int) (i : Nat) (j : Int), 0 ≤ j → j < consumer_loop_bound (len 0) → InIdx j (len i)) := by
   intro h
@@ -103,12 +123,14 @@ theorem inb_neighbor_lists_needs_uniform :
 
 /-- after `if (leaf_scale <= n.scale) leaf_scale = n.scale + 1` the scale just assigned indexes inside a table of
     `leaf_scale + 1` slots, and the table never shrinks (so earlier scales stay in range) -/
+-- [S]
 theorem inb_cover_sets (leaf scale : Int) (hs : 0 ≤ scale) :
     InIdx scale (cover_sets_size (cover_leaf_update leaf scale)) ∧ leaf ≤ cover_leaf_update leaf scale := by
   simp only [InIdx, cover_sets_size, cover_leaf_update]
   split_ifs <;> omega
 
 /-- all scales assigned during construction index inside the final table -/
+-- [S]
 theorem inb_cover_sets_all (scales : List Int) (leaf0 : Int) :
     ∀ s ∈ scales, 0 ≤ s → InIdx s (cover_sets_size (scales.foldl cover_leaf_update leaf0)) := by
   have mono : ∀ (l : List Int) (a : Int), a ≤ l.foldl cover_leaf_update a := by
@@ -134,6 +156,7 @@ theorem inb_cover_sets_all (scales : List Int) (leaf0 : Int) :
     · exact ih _ s hmem h0
 
 /-- the scale given to leaves / coinciding points is itself a valid slot, and node scales are non-negative -/
+-- [R]
 theorem inb_cover_leaf_and_node_scale (top mx : Int) (h : mx ≤ top) :
     InIdx cover_leaf_scale_init (cover_sets_size cover_leaf_scale_init) ∧ 0 ≤ cover_node_scale top mx := by
   simp only [InIdx, cover_sets_size, cover_leaf_scale_init, cover_node_scale]; omega
@@ -149,6 +172,7 @@ def InbHlleCol : Prop :=
 -- (closed F-HLLE-CT)
 -- every written column `Yi.col(ct + p + 1 + d)` of the loop nest lies inside the `1 + d + dp` columns of `Yi`
 -- (F-HLLE-CT repaired: `ct += target_dimension - j`)
+-- [S]
 theorem inb_hlle_col : InbHlleCol := by
   intro d j p _ hj hp
   have hstep : ∀ ct d j, hlle_ct_step ct d j = ct + (d - j) := by
@@ -162,6 +186,7 @@ theorem inb_hlle_col : InbHlleCol := by
 example : violatedSites { defaultConfig .hlle .brute .dense 17 3 with d := 3, k := 12 } = [] := by decide +kernel
 
 /-- the same statement for the repaired step function, independent of the current tree -/
+-- [S]
 theorem inb_hlle_col_after_fix (d : Int) (j p : Nat) (hj : (j : Int) < hlle_j_hi d) (hp : (p : Int) < hlle_p_hi d j) :
     InIdx (hlle_col_idx (ctOf hlle_ct_init (fun ct d j => ct + (d - j)) d j) p d) (hlle_yi_cols d (hlle_dp d)) := by
   have := hlle_col_in_bounds_of_fixed_step (fun ct d j => ct + (d - j)) (fun _ _ _ => rfl) d j p
@@ -171,6 +196,7 @@ theorem inb_hlle_col_after_fix (d : Int) (j p : Nat) (hj : (j : Int) < hlle_j_hi
 
 /-- the other column selections of `Yi` (block of eigenvectors, normalisation loop, `rightCols(dp)`, the two columns
     read by the product loop) are inside its `1 + d + dp` columns for any `dp ≥ 0` -/
+-- [S]
 theorem inb_hlle_blocks (d dp : Int) (hd : 0 ≤ d) (hdp : 0 ≤ dp) :
     InBlock (hlle_block_start d) (hlle_block_cols d) (hlle_yi_cols d dp) ∧
     InCount (hlle_yi_rightCols dp) (hlle_yi_cols d dp) ∧
@@ -183,6 +209,7 @@ theorem inb_hlle_blocks (d dp : Int) (hd : 0 ≤ d) (hdp : 0 ≤ dp) :
   · intro i h0 h1; omega
   · intro j p h0 h1 h2 h3; omega
 
+-- [S]
 theorem hlle_dp_nonneg (d : Int) (hd : 0 ≤ d) : 0 ≤ hlle_dp d := by
   simp only [hlle_dp]
   exact Int.ediv_nonneg (mul_nonneg hd (by omega)) (by decide)
@@ -194,6 +221,7 @@ def InbHlleEigvec : Prop :=
 
 -- (closed F-DIM-RANK-LOCAL)
 -- validate() now bounds target_dimension by num_neighbors
+-- [S]
 theorem inb_hlle_eigvec_rightCols : InbHlleEigvec := by
   intro c h hm
   have hv := validated_method h
@@ -203,6 +231,7 @@ theorem inb_hlle_eigvec_rightCols : InbHlleEigvec := by
 
 /-! ### LTSA (`tangent_weight_matrix`) -/
 
+-- [S]
 theorem inb_ltsa_g (d : Int) (hd : 0 ≤ d) : InCount (ltsa_g_rightCols d) (ltsa_g_cols d) := by
   simp only [InCount, ltsa_g_rightCols, ltsa_g_cols]; omega
 
@@ -212,6 +241,7 @@ def InbLtsaEigvec : Prop :=
 
 -- (closed F-DIM-RANK-LOCAL)
 -- validate() now bounds target_dimension by num_neighbors
+-- [S]
 theorem inb_ltsa_eigvec_rightCols : InbLtsaEigvec := by
   intro c h hm
   have hv := validated_method h
@@ -224,6 +254,7 @@ theorem inb_ltsa_eigvec_rightCols : InbLtsaEigvec := by
 
 /-- largest eigenvalues of an N x N problem (MDS, Isomap, kernel PCA; diffusion map asks for d + 1):
     `rightCols(want)` and `tail(want)` are inside -/
+-- [S]
 theorem inb_dense_largest_N (c : Config) (p : EigProblem) (h : validated c = true)
     (hm : c.method = .mds ∨ c.method = .isomap ∨ c.method = .kpca ∨ c.method = .dm)
     (hp : eigProblem c = some p) :
@@ -233,6 +264,7 @@ theorem inb_dense_largest_N (c : Config) (p : EigProblem) (h : validated c = tru
     simp only [InCount, dense_largest_rightCols, dense_largest_tail, dm_requested] <;> omega
 
 /-- diffusion map: `leftCols(d)`, `col(d)` and the eigenvalues `second(i), i < d` of the `d + 1` returned pairs -/
+-- [S]
 theorem inb_dm (c : Config) (h : validated c = true) :
     InCount (dm_requested c.d) c.N ∧ InCount (dm_leftCols c.d) (dm_requested c.d) ∧
     InIdx (dm_norm_col c.d) (dm_requested c.d) ∧ InCount (dm_eigval_hi c.d) (dm_requested c.d) := by
@@ -246,6 +278,7 @@ def InbPcaCols : Prop :=
 
 -- (closed F-DIM-RANK-LINEAR)
 -- validate() now bounds target_dimension by the feature dimension
+-- [S]
 theorem inb_pca_rightCols : InbPcaCols := by
   intro c h hm
   have hv := validated_method h
@@ -255,6 +288,7 @@ theorem inb_pca_rightCols : InbPcaCols := by
 
 /-- landmark selection: `erase(begin + ⌊N·ratio⌋, end)` is inside the N-vector and keeps at least 3 landmarks
     (exact rational product; the `double` product is part of the partial label) -/
+-- [S]
 theorem inb_landmark_erase (c : Config) (h : validated c = true) (hm : c.method = .lmds ∨ c.method = .lisomap) :
     InCount (landmark_count c.N c.ratio) (landmark_vector_size c.N) ∧ 3 ≤ landmark_count c.N c.ratio := by
   have hN := validated_pos h
@@ -273,6 +307,7 @@ def InbLandmarkCols : Prop :=
 
 -- (closed F-LANDMARK-DIM)
 -- validate() now bounds target_dimension by the number of landmarks
+-- [S]
 theorem inb_landmark_rightCols : InbLandmarkCols := by
   intro c h hm
   have hv := validated_method h
@@ -282,11 +317,13 @@ theorem inb_landmark_rightCols : InbLandmarkCols := by
   simp only [InCount, dense_largest_rightCols, nLandmarks]; omega
 
 /-- triangulation: rows `i < n_landmarks` of the n_landmarks x d landmark embedding and columns `i < d` -/
+-- [R]
 theorem inb_triangulate (nl d i : Int) (h0 : 0 ≤ i) :
     (i < tri_row_hi nl → InIdx i nl) ∧ (i < tri_col_hi d → InIdx i d) := by
   simp only [tri_row_hi, tri_col_hi, InIdx]; constructor <;> intro <;> omega
 
 /-- smallest eigenvalues of an N x N problem (KLLE, KLTSA, HLLE: skip = 1): `leftCols(d + skip).rightCols(d)` -/
+-- [S]
 theorem inb_dense_smallest_cols (c : Config) (h : validated c = true) :
     InCount (dense_smallest_leftCols c.d skip_SmallestEigenvalues) c.N ∧
     InCount (dense_smallest_rightCols c.d skip_SmallestEigenvalues) (dense_smallest_leftCols c.d skip_SmallestEigenvalues) := by
@@ -300,12 +337,14 @@ def InbDenseSegment : Prop :=
 
 -- (closed F-EIG-SEGMENT)
 -- the eigenvalue slice `segment(skip, target_dimension)` lies inside the N eigenvalues
+-- [S]
 theorem inb_dense_segment : InbDenseSegment := by
   intro c h
   have := validated_d h
   simp only [InBlock, dense_segment_start, dense_segment_len, skip_SmallestEigenvalues]; omega
 
 /-- generalized problem of Laplacian eigenmaps (N x N, skip from the strategy): columns are fine … -/
+-- [S]
 theorem inb_gen_le_cols (c : Config) (h : validated c = true) :
     InCount (gen_smallest_leftCols c.d gen_sparse_diag_skip) c.N ∧
     InCount (gen_smallest_rightCols c.d gen_sparse_diag_skip) (gen_smallest_leftCols c.d gen_sparse_diag_skip) := by
@@ -318,6 +357,7 @@ def InbGenSegmentLE : Prop :=
     InBlock (gen_segment_start c.d gen_sparse_diag_skip) (gen_segment_len c.d gen_sparse_diag_skip c.N) c.N
 
 -- (closed F-EIG-SEGMENT)
+-- [S]
 theorem inb_gen_segment : InbGenSegmentLE := by
   intro c h
   have := validated_d h
@@ -331,6 +371,7 @@ def InbGenLinearCols : Prop :=
 
 -- (closed F-DIM-RANK-LINEAR)
 -- validate() of NPE / LPP / LLTSA now bounds target_dimension by the feature dimension
+-- [S]
 theorem inb_gen_linear_cols : InbGenLinearCols := by
   intro c h hm
   have hv := validated_method h
@@ -340,6 +381,7 @@ theorem inb_gen_linear_cols : InbGenLinearCols := by
   simp only [InCount, InBlock, gen_smallest_leftCols, gen_segment_start, gen_segment_len, gen_dense_dense_skip]; omega
 
 /-- randomized solver: every column selection is inside the sketch of `d + skip` columns, for any d, skip ≥ 0 -/
+-- [S]
 theorem inb_randomized (d skip : Int) (hd : 0 ≤ d) (hs : 0 ≤ skip) :
     InCount (rand_largest_rightCols d) (rand_sketch_cols d skip) ∧
     InCount (rand_smallest_leftCols d skip) (rand_sketch_cols d skip) ∧
@@ -349,6 +391,7 @@ theorem inb_randomized (d skip : Int) (hd : 0 ≤ d) (hs : 0 ≤ skip) :
 /-! ### SPE -/
 
 /-- `ind1Neighbors[kk + j*k]` and `ind1Neighbors[r]`, `r = ⌊u (k-1)⌋ + k j`, inside its `k * nupdates` entries -/
+-- [S]
 theorem inb_spe_ind1 (k nu kk j f : Int) (hkk0 : 0 ≤ kk) (hkk : kk < k) (hj0 : 0 ≤ j) (hj : j < nu)
     (hf0 : 0 ≤ f) (hf : f < k) :
     InIdx (spe_ind1_write kk j k) (spe_ind1_size k nu) ∧ InIdx (spe_r f k j) (spe_ind1_size k nu) := by
@@ -362,6 +405,7 @@ theorem inb_spe_ind1 (k nu kk j f : Int) (hkk0 : 0 ≤ kk) (hkk : kk < k) (hj0 :
   exact ⟨h1, h2⟩
 
 /-- the floor term of `r`: for `u ∈ [0,1)` and `k ≥ 1`, `⌊u (k-1)⌋ ∈ [0, k)` -/
+-- [S]
 theorem spe_floor_term (k : Int) (u : Rat) (hk : 1 ≤ k) (hu0 : 0 ≤ u) (hu1 : u < 1) :
     0 ≤ (u * ((spe_rand_span k : Int) : Rat)).floor ∧ (u * ((spe_rand_span k : Int) : Rat)).floor < k := by
   have hs : (0 : Rat) ≤ ((spe_rand_span k : Int) : Rat) := by
@@ -381,6 +425,7 @@ theorem spe_floor_term (k : Int) (u : Rat) (hk : 1 ≤ k) (hu0 : 0 ≤ u) (hu1 :
 
 /-- the slot that receives the chosen partner, and the second half `[nupdates, 2 nupdates)` of the N indices, once
     `nupdates ≤ N/2` -/
+-- [S]
 theorem inb_spe_indices (N nu j : Int) (hnu0 : 0 ≤ nu) (hnu : nu ≤ spe_nupdates_max N) (hj0 : 0 ≤ j) (hj : j < nu) :
     InIdx (spe_indices_write nu j) (spe_partner_size N nu) ∧ InBlock (spe_ind2_start nu) nu (spe_indices_size N) := by
   simp only [InIdx, InBlock, spe_indices_write, spe_indices_size, spe_partner_size, spe_ind2_start, spe_nupdates_max] at *
@@ -389,6 +434,7 @@ theorem inb_spe_indices (N nu j : Int) (hnu0 : 0 ≤ nu) (hnu : nu ≤ spe_nupda
 /-! ### t-SNE -/
 
 /-- the map buffer `Y` (`N * no_dims` doubles) is traversed by `i < N * no_dims` -/
+-- [R]
 theorem inb_tsne_y (N nd i : Int) (h0 : 0 ≤ i) (h : i < N * nd) : InIdx i (tsne_y_size N nd) := by
   simp only [InIdx, tsne_y_size]
   have : nd * N = N * nd := by ring
@@ -402,6 +448,7 @@ def InbTsneBH : Prop :=
       InIdx (qt_read_idx n dd) (tsne_y_size c.N c.d) ∧ InIdx (qt_posf_idx n dd) (tsne_force_size c.N c.d) ∧
       InIdx (tsne_negf_offset n c.d + dd) (tsne_force_size c.N c.d)
 
+-- [S]
 theorem inb_tsne_posf_partial (c : Config) (hdims : qt_no_dims ≤ c.d)
     (n dd : Int) (hn0 : 0 ≤ n) (hn : n < c.N) (hd0 : 0 ≤ dd) (hd : dd < qt_no_dims) :
     InIdx (qt_read_idx n dd) (tsne_y_size c.N c.d) ∧ InIdx (qt_posf_idx n dd) (tsne_force_size c.N c.d) ∧
@@ -415,6 +462,7 @@ theorem inb_tsne_posf_partial (c : Config) (hdims : qt_no_dims ≤ c.d)
 
 -- (closed F-TSNE-DIMS)
 -- validate() now requires target_dimension = 2 when θ > 0
+-- [S]
 theorem inb_tsne_posf : InbTsneBH := by
   intro c h hm hth n dd hn0 hn hd0 hd
   have hv := validated_method h
@@ -435,6 +483,7 @@ def InbTsneExactError : Prop :=
     ∀ n dd : Int, 0 ≤ n → n < c.N → 0 ≤ dd → dd < tsne_exact_error_dims c.d →
       InIdx (tsne_sqdist_idx n dd (tsne_exact_error_dims c.d)) (tsne_y_size c.N c.d)
 
+-- [S]
 theorem inb_tsne_exact_error_partial (c : Config) (hdims : tsne_exact_error_dims c.d ≤ c.d)
     (n dd : Int) (hn0 : 0 ≤ n) (hn : n < c.N) (hd0 : 0 ≤ dd) (hd : dd < tsne_exact_error_dims c.d) :
     InIdx (tsne_sqdist_idx n dd (tsne_exact_error_dims c.d)) (tsne_y_size c.N c.d) := by
@@ -445,12 +494,14 @@ theorem inb_tsne_exact_error_partial (c : Config) (hdims : tsne_exact_error_dims
 
 -- (closed F-TSNE-DIMS)
 -- the exact error evaluation now reads `Y` with its own width
+-- [S]
 theorem inb_tsne_exact_error : InbTsneExactError := by
   intro c _ _ _ n dd hn0 hn hd0 hd
   exact inb_tsne_exact_error_partial c (by simp [tsne_exact_error_dims]) n dd hn0 hn hd0 hd
 
 /-- sparse similarities: `K = ⌊3·perplexity⌋ ≤ N - 1` neighbours are requested (+ the point itself), so
     `distances[m+1]`, `cur_P[m]`, `col_P[n*K + m]` are in range for `m < K` -/
+-- [S]
 theorem inb_tsne_knn (c : Config) (h : validated c = true) (hm : c.method = .tsne) :
     let K := tsne_K c.perp
     InCount (tsne_knn_requested K) c.N ∧
@@ -478,6 +529,7 @@ def InbMsRows : Prop :=
 
 -- (closed F-DIM-RANK-LOCAL)
 -- validate() now bounds target_dimension by the feature dimension
+-- [S]
 theorem inb_ms_rows : InbMsRows := by
   intro c h hm
   have hv := validated_method h
@@ -502,27 +554,32 @@ def FrontEndErrorsDocumented : Prop :=
 
 -- (closed F-DOC-WPTE)
 -- every class embed.hpp rethrows is in its documented `@throw` list
+-- [S]
 theorem front_end_errors_documented : FrontEndErrorsDocumented := by
   unfold FrontEndErrorsDocumented; decide
 
 /-- every `throw` under include/tapkee raises a documented class or the empty-input error, except exactly one
     foreign throw: `std::runtime_error("Wrong size")` in manifold sculpting, guarded by `(end - begin) != n` -/
+-- [S]
 theorem foreign_throws_listed :
     throwSites.filter (fun s => !(documentedThrows.contains s.2.1 || s.2.1 == emptyInputThrows)) =
       [("tapkee/routines/manifold_sculpting.hpp", "std::runtime_error", "(end - begin) != n")] := by
   decide
 
 /-- … whose guard is unreachable: each search returns one list per sample (`neighbors.size() = N`) -/
+-- [R]
 theorem no_foreign_throw_reachable (N : Int) : ms_wrong_size_guard N (neighbors_outer_size N) = false := by
   simp [ms_wrong_size_guard, neighbors_outer_size]
 
 /-- every process-terminating call is guarded by nothing but `x == NULL` tests of pointers that come straight from
     `malloc` / `calloc`: only an allocation failure reaches `exit(1)` -/
+-- [S]
 theorem never_exits_unless_alloc_fails :
     ∀ s ∈ exitSites, s.2.2.2.2 = true ∧ s.2.2.2.1 ≠ [] ∧ ∀ v ∈ s.2.2.2.1, v.2 = "malloc" ∨ v.2 = "calloc" := by
   decide
 
 /-- the `assert`s of the library (active unless NDEBUG) are exactly these … -/
+-- [S]
 theorem assert_sites_listed :
     assertSites = [("tapkee/neighbors/covertree.hpp", "size(points) > 0"),
                    ("tapkee/neighbors/neighbors.hpp", "end - begin == res.index"),
@@ -532,6 +589,7 @@ theorem assert_sites_listed :
   decide
 
 /-- … and `skip == 0` holds wherever a "largest" operation is instantiated -/
+-- [S]
 theorem largest_strategies_skip_zero : skip_LargestEigenvalues = 0 ∧ skip_SquaredLargestEigenvalues = 0 := by
   decide
 
@@ -539,6 +597,7 @@ theorem largest_strategies_skip_zero : skip_LargestEigenvalues = 0 ∧ skip_Squa
 
 /-- k-doubling: from any validated k the sequence `k, 2k, 4k, …` (clamped) reaches `N - 1` within
     `⌊log₂((N-1)/k)⌋ + 1` enlargements and stays there -/
+-- [S]
 theorem kSeq_reaches_complete_graph (N k : Int) (hk : 1 ≤ k) (hkN : k < N) :
     kSeq N k (Nat.log 2 ((N - 1) / k).toNat + 1) = N - 1 := by
   have hb : knn_clamp_bound N = N - 1 := by simp [knn_clamp_bound]
@@ -562,6 +621,7 @@ theorem kSeq_reaches_complete_graph (N k : Int) (hk : 1 ≤ k) (hkN : k < N) :
 
 /-- `find_neighbors` terminates: if the complete graph passes the connectivity test (C02 + C03) the recursion
     stops after at most `⌊log₂((N-1)/k)⌋ + 1` enlargements -/
+-- [S]
 theorem findNeighbors_terminates (conn : Int → Bool) (N k : Int) (hk : 1 ≤ k) (hkN : k < N)
     (hcomplete : conn (N - 1) = true) :
     ∃ r, r ≤ Nat.log 2 ((N - 1) / k).toNat + 1 ∧
@@ -595,6 +655,7 @@ theorem findNeighbors_terminates (conn : Int → Bool) (N k : Int) (hk : 1 ≤ k
 example : findNeighborsRounds (fun k => decide (k = 39)) 40 6 3 = some 4 := by decide
 
 /-- the perplexity bisection (`while (!found && iter < 200)`, `iter++` each round) runs at most the generated bound -/
+-- [R]
 theorem perplexity_bisection_bounded {σ : Type} (body : σ → σ × Bool) (s : σ) :
     (boundedLoop body tsne_bisection_max.toNat s).1 ≤ 200 := by
   have := boundedLoop_rounds_le body tsne_bisection_max.toNat s
@@ -603,6 +664,7 @@ theorem perplexity_bisection_bounded {σ : Type} (body : σ → σ × Bool) (s :
 
 /-- the t-SNE main loop runs `max_iter` rounds; the main loops of SPE, factor analysis and manifold sculpting run at
     most `max_iteration` rounds (`found` = convergence / no-improvement exit) -/
+-- [R]
 theorem iteration_counts_bounded {σ : Type} (body : σ → σ × Bool) (s : σ) (maxIter : Int) :
     (boundedLoop body tsne_max_iter.toNat s).1 ≤ 1000 ∧
     (boundedLoop body (param_loop_rounds maxIter).toNat s).1 ≤ maxIter.toNat := by
@@ -613,6 +675,7 @@ theorem iteration_counts_bounded {σ : Type} (body : σ → σ × Bool) (s : σ)
   · simpa [param_loop_rounds] using boundedLoop_rounds_le body maxIter.toNat s
 
 /-- SPE with `max_iteration = 0`: the default iteration count is a finite, explicit function of N -/
+-- [S]
 theorem spe_default_iterations (N : Int) (g : Bool) (hN : 0 ≤ N) :
     2000 ≤ spe_default_iters N g ∧ spe_default_iters N g ≤ 3 * (2000 + N * N) := by
   simp only [spe_default_iters]
